@@ -73,6 +73,8 @@ namespace sim
          { "unsigned_rule_with_action", RC::INTEGER },
          { "signed_rule_with_action", RC::INTEGER },
          { "maximum_rule_with_action", RC::INTEGER },
+         { "hk_ca", RC::W_CONTROL_ACTION },
+         { "w_as", RC::W_CHANGE_STATE },
          { "mi_raise_a", RC::MI_RAISE },
          { "mi_raise_d", RC::MI_RAISE },
          { "mi_msg_b", RC::MI_MSG },
@@ -105,6 +107,11 @@ namespace sim
             if( ri.cls >= RC::TC_RF_PE && ri.cls <= RC::TC_RN_TYPE ) {
                ri.cls = RC::OTHER;
             }
+         }
+         if( ri.cls == RC::CONTROL ) {
+            // control< C, Rule >: the control family that C records as (ctl2: 2, the adaptor controls of the hooks program: 3)
+            ri.p0 = ( n.find( "adapt_" ) != std::string::npos ) ? 3 : 2;
+            return;
          }
          if( lt != std::string::npos && ( ri.cls != RC::OTHER ) ) {
             // leading integer parameters, e.g. "sim::w_lb<1, 3>"
